@@ -3,7 +3,11 @@ sys.path.insert(0,'/verif/sa')
 from facts import Facts
 from models import Purity
 from sym import *
-def load(p='/verif/.work/t1'):
+def load(p=None):
+    import os
+    if p is None:
+        ds=[d for d in os.listdir('/verif/.work') if d.startswith('facts-') and d.endswith('default')]
+        p='/verif/.work/'+sorted(ds, key=lambda d: os.stat('/verif/.work/'+d).st_mtime)[-1]
     return Facts.load(glob.glob(p+'/geo_booleanop-*.json')[0])
 def dump(f, name, calls=True, depth0=True, opaque=()):
     pu=Purity(f)
